@@ -448,6 +448,12 @@ def mutate_tokens(tokens, rng):
             j = rng.choice(idx)
             t[j] = (W, rng.choice(["on", "implements", "a"]))
             return t, "string-to-name"
+    if k == 5 and rng.random() < 0.4:
+        idx = [j for j, x in enumerate(t) if x[0] == W and x[1] in NAMES]
+        if idx:
+            j = rng.choice(idx)
+            t[j] = (W, rng.choice(["on", "true", "null", "fragment", "implements", "extend"]))
+            return t, "name-to-keyword"
     if k == 5:
         t[i] = rng.choice(INSERTABLE)
         return t, "replace"
